@@ -31,6 +31,26 @@ def createRateLimiter (settings : Option (Int × Int)) : Lim :=
     let burst := if b != 0 then b else burst
     { inf := inf, I := iv, B := burst }
 
+/-- The kinds of bindings a hook configuration can have: three queued ones (their executions are
+tasks of a queue) and three webhooks (executed on request by the admission / conversion handler). -/
+inductive BindKind where
+  | onStartup | schedule | kubernetes | validating | mutating | conversion
+  deriving DecidableEq, Repr
+
+/-- What `Hook.LoadConfig` sees of a loaded hook configuration: the `settings` block and the bindings. -/
+structure HookCfg where
+  settings : Option (Int × Int)
+  bindings : List BindKind
+  deriving Repr
+
+/-- `Hook.LoadConfig` (pkg/hook/hook.go) after a successful `LoadAndValidate`: the only statement of
+the repository that writes `Hook.RateLimiter` is `h.RateLimiter = CreateRateLimiter(h.Config)`, the
+only other use is the `Wait` of `RateLimitWait`, and nothing re-tunes a limiter
+(`Facts.c18LimiterUses`, `Facts.c18LimiterTuners`; theorem `load_config_shape`).
+`CreateRateLimiter` reads `cfg.Settings` only, so the bindings take no part. -/
+def hookLimiter (cfg : HookCfg) : Lim :=
+  createRateLimiter cfg.settings             -- h.RateLimiter = CreateRateLimiter(h.Config)
+
 /-- Limiter state: credit (`tokens · I`) and `last`. -/
 structure LState where
   c : Int
